@@ -360,14 +360,37 @@ def find_region(path, fn_selector, start_pat, end_pat):
             if all(toks[code[ci + q]].text == pat[q] for q in range(len(pat))):
                 return ci
         return None
-    after = start_pat.startswith(">")
+    after_stmt = start_pat.startswith(">>")
+    if after_stmt:
+        # `>>pattern`: the region starts with the statement FOLLOWING the statement that starts with the pattern
+        start_pat = start_pat[2:].strip()
+        a0 = find(start_pat, 0)
+        if a0 is None:
+            raise LostAnchor("region start `>>%s` not found in %r of %s" % (start_pat, fn_selector, path))
+        q = a0
+        a = None
+        while q < len(code):
+            tq = toks[code[q]]
+            if tq.kind == "punct" and tq.text in "([{":
+                cl = match_close(toks, code[q])
+                while q < len(code) and code[q] <= cl:
+                    q += 1
+                continue
+            if tq.kind == "punct" and tq.text == ";":
+                a = q + 1
+                break
+            q += 1
+        if a is None or a >= len(code):
+            raise LostAnchor("region start `>>%s`: no following statement in %r" % (start_pat, fn_selector))
+    after = (not after_stmt) and start_pat.startswith(">")
     if after:
         # `>pattern`: the region starts with the first statement AFTER the matched tokens (e.g. `>if c {` = first statement of
         # that block)
         start_pat = start_pat[1:].strip()
-    a = find(start_pat, 0)
-    if a is None:
-        raise LostAnchor("region start `%s` not found in %r of %s" % (start_pat, fn_selector, path))
+    if not after_stmt:
+        a = find(start_pat, 0)
+        if a is None:
+            raise LostAnchor("region start `%s` not found in %r of %s" % (start_pat, fn_selector, path))
     if after:
         a += len([t for t in lex(start_pat) if t.kind not in ("ws", "lcomment", "bcomment")])
     if end_pat.strip() == "$end":
